@@ -370,6 +370,7 @@ def judge_history(ctx, h, res, pm):
             break
         out["judged"] += 1
         out["steps"] += nsteps
+        excluded = set()                       # elements of this simulation attributed to a known finding ("*" = all)
         if cd_music_inconsistent(before, plan["use"].get("surface")) or cd_music_inconsistent(after, plan["save"].get("surface")):
             # known finding: plane charges of a CD_MUSIC surface do not add up to the charge of its species
             cbad = [b for b in bad if b["element"] == "Charge"]
@@ -382,6 +383,7 @@ def judge_history(ctx, h, res, pm):
             out.setdefault("findings", []).append((KEY_NEG, "simulation %d: MASS_BALANCE recovery under KINETICS; %s"
                                                    % (s, json.dumps(bad[:3])), s))
             bad = []
+            excluded.add("*")
         if bad and "equilibrium_phases" in plan["use"]:
             # small drift (< 1e-8 mol) of an element that belongs to a pure phase which is absent before and after the step
             absent = set()
@@ -396,6 +398,7 @@ def judge_history(ctx, h, res, pm):
             if drift:
                 out.setdefault("findings", []).append((KEY_ABS, "simulation %d: %s" % (s, json.dumps(drift[:3])), s))
                 bad = [b for b in bad if b not in drift]
+                excluded |= {b["element"] for b in drift}
         if bad:
             out["problems"].append(("conservation", "simulation %d (%d steps): %s" % (s, nsteps, json.dumps(bad[:4])), s))
         if neg:
@@ -413,6 +416,8 @@ def judge_history(ctx, h, res, pm):
                 xs = sys_check(h, sel["heads"], new_rows, before, plan, inv_before, added_k, phases, extra, xc[2])
                 out["xcheck"] += xs[0]
                 for p in xs[1]:
+                    if "*" in excluded or any(("SYS(%s)" % el) in p for el in excluded):
+                        continue                       # same simulation / element already attributed to a known finding
                     out["problems"].append(("sys-conservation", "simulation %d: %s" % (s, p), s))
     return out
 
